@@ -436,8 +436,8 @@ def _transfer_texts() -> list[tuple[str, str]]:
 
 
 def _func_texts() -> list[tuple[str, str]]:
-    """func.func DEFINITIONS (declarations print the bare function type) with result / argument
-    attributes on all or a strict subset of the positions"""
+    """func.func definitions with result / argument attributes on all or a strict subset of the
+    positions, and declarations with result attributes"""
     out = []
     tag = "{test.tag = 1 : i32}"
     for name, ins, outs, res_attrs, arg_attrs in [
@@ -460,11 +460,36 @@ def _func_texts() -> list[tuple[str, str]]:
         args = ", ".join(f"%a{i}: i32" for i in range(ins))
         rets = ", ".join(["%a0"] * outs)
         out.append((name, f'"func.func"() <{{{props}}}> ({{\n^bb0({args}):\n  "func.return"({rets}) : ({ot}) -> ()\n}}) : () -> ()\n'))
+    # declarations: result attributes are printed since the repair of print_func_op_like (argument
+    # attributes of declarations are a listed limitation and stay out of this catalogue)
+    for name, outs, res_attrs in [
+        ("func/declaration-one-result-decorated", 1, f"[{tag}]"),
+        ("func/declaration-two-results-second-decorated", 2, f"[{{}}, {tag}]"),
+        ("func/declaration-two-results-both-decorated", 2, f"[{tag}, {tag}]"),
+        ("func/declaration-undecorated", 1, None),
+    ]:
+        ot = ", ".join(["i32"] * outs)
+        props = f'function_type = (i32) -> ({ot}), sym_name = "f", sym_visibility = "private"'
+        if res_attrs:
+            props += f", res_attrs = {res_attrs}"
+        out.append((name, f'"func.func"() <{{{props}}}> ({{\n}}) : () -> ()\n'))
+    return out
+
+
+def _llvm_func_texts() -> list[tuple[str, str]]:
+    """llvm.func with and without the optional `unnamed_addr` (the custom parser always sets it; 0 is its
+    declared default since the repair)"""
+    out = []
+    base = ('CConv = #llvm.cconv<ccc>, function_type = !llvm.func<void ()>, linkage = #llvm.linkage<"external">, '
+            'sym_name = "f", visibility_ = 0 : i64')
+    for name, extra in [("llvm.func/no-unnamed_addr", ""), ("llvm.func/unnamed_addr-0", ", unnamed_addr = 0 : i64"),
+                        ("llvm.func/unnamed_addr-1", ", unnamed_addr = 1 : i64"), ("llvm.func/unnamed_addr-2", ", unnamed_addr = 2 : i64")]:
+        out.append((name, f'"llvm.func"() <{{{base}{extra}}}> ({{\n}}) : () -> ()\n'))
     return out
 
 
 def text_catalogue() -> list[tuple[str, str]]:
-    return _transfer_texts() + _func_texts()
+    return _transfer_texts() + _func_texts() + _llvm_func_texts()
 
 
 def run_text_catalogue(ctx: core.Ctx, check_module) -> None:
